@@ -62,7 +62,7 @@ CHECKS = {
             dict(name="TestC01SSHFull", quick=dict(checks=100, timeout=600), thorough=dict(checks=1000, shards=2, timeout=3000)),
         ]),
     "C12": dict(
-        pkg="c12", level="exploration", bins=["dgrep"], helpers=["vserver"],
+        pkg="c12", level="exploration", bins=["dgrep", "dmap"], helpers=["vserver"],
         technique="property-based testing (rapid): end-to-end differential - lines selected by the real dgrep binary (flag -> serialise -> base64 envelope -> server decode -> reader) vs. the grep reference model with the user's pattern compiled directly; plus in-process serialise/deserialise round trips",
         level_text="Generated patterns rich in the characters the three splitting stages use, both flags, context values and output modes are sent through the real dgrep binary serverless and over SSH; the selected lines and the output mode must equal what the user's pattern selects directly. In-process round trips cover the full integer range of the options.",
         level_note="Patterns are bounded at 1 KiB (a command larger than one 32 KiB client read is cut by the client handler; stated bound). Lines avoid byte 0xAC and, in plain mode, a leading '.' (open findings of C01).",
@@ -70,6 +70,7 @@ CHECKS = {
             dict(name="TestC12Serverless", quick=dict(checks=900, timeout=600), thorough=dict(checks=5000, shards=8, timeout=3000)),
             dict(name="TestC12SSH", quick=dict(checks=250, timeout=600), thorough=dict(checks=2000, shards=4, timeout=3000)),
             dict(name="TestC12RoundTrip", quick=dict(checks=50000, timeout=600), thorough=dict(checks=500000, shards=4, timeout=3000)),
+            dict(name="TestC12MaprSession", quick=dict(checks=40, timeout=600), thorough=dict(checks=400, shards=4, timeout=3000)),
         ]),
     "C08": dict(
         pkg="c08", level="exploration", bins=["dcat"],
